@@ -54,6 +54,8 @@ type Config struct {
 	// (toggling between SpecA and ReloadSpecA); afterwards the rule in force is the new one, with fresh state
 	ReloadSpecA int64 `json:"reload_spec_a,omitempty"`
 	HasReload   bool  `json:"has_reload,omitempty"`
+	// Exact (negative index only): requests carry exactly |index| arguments, so the index selects the FIRST one
+	Exact bool `json:"exactly_index_many_args,omitempty"`
 }
 
 func (c Config) String() string { b, _ := json.Marshal(c); return string(b) }
@@ -233,6 +235,15 @@ func (s *scen) opts(v int, batch uint32) []sentinel.EntryOption {
 		o = append(o, sentinel.WithArgs(args...))
 	default:
 		n := -s.cfg.Index
+		if s.cfg.Exact {
+			args := make([]interface{}, n)
+			for i := range args {
+				args[i] = "decoy"
+			}
+			args[0] = val
+			o = append(o, sentinel.WithArgs(args...))
+			return o
+		}
 		args := make([]interface{}, n+1)
 		for i := range args {
 			args[i] = "decoy"
@@ -536,6 +547,7 @@ func configs(quick bool) []Config {
 		out = append(out, Config{Family: "F3", T: 1, D: 1, SpecA: -1, Index: idx})
 		out = append(out, Config{Family: "F3", T: 1, D: 1, SpecA: -1, Index: idx, ValueKinds: true})
 	}
+	out = append(out, Config{Family: "F3", T: 1, D: 1, SpecA: -1, Index: -1, Exact: true}, Config{Family: "F3", T: 1, D: 1, SpecA: -1, Index: -3, Exact: true})
 	out = append(out, Config{Family: "F3", T: 1, D: 1, SpecA: -1, ByKey: true}, Config{Family: "F3", T: 1, D: 1, SpecA: -1, ByKey: true, ValueKinds: true})
 	// F5 reject, starting after sparse traffic (states the depth bound does not reach from the start)
 	for _, t := range []int64{2, 3} {
